@@ -1,14 +1,1923 @@
-//! C10 — not implemented yet (stub).
-use crate::report::{Cfg, Meta, Report};
+//! C10 — serialised code and data round-trip and recompile to the same program.
+//!
+//! Source text is generated (every `Instruction` variant of the assembler's AST with every
+//! immediate form, nested control flow, procedures with locals, docs, imports, re-exports,
+//! constants), parsed with the real parser, serialised / deserialised under every
+//! {imports serialised?} x {locations written+loaded?} configuration, compared under the library's
+//! own notion of equality, and then the original and the round-tripped AST are compiled with the
+//! same assembler configuration and executed on the same input. Library files, program info,
+//! kernels, stack inputs/outputs and execution proofs are round-tripped likewise.
+//!
+//! The public generator items of this module (`Catalog`, `SrcGen`, `gen_program_src`,
+//! `gen_module_src`, `proofs`, `vlib`, ...) are reused by C19 to obtain valid encodings to mutate.
+
+use crate::case::{build_lib, exec_host, Case, ExecOutcome, LibSrc};
+use crate::gen::{gen_case, GenCfg};
+use crate::pv::{self, ProveOutcome};
+use crate::report::{merge_all, truncate, Cfg, Meta, Report};
+use crate::util::{biased_felt, catch, hex, par_map, rng_for, unhex, PanicInfo, Rng8, P};
+use assembly::ast::{AstSerdeOptions, Instruction, ModuleAst, Node, ProcedureAst, ProgramAst};
+use assembly::{
+    Library, LibraryNamespace, LibraryPath, MaslLibrary, Module, ProcedureId,
+    ProcedureName, Version,
+};
+use miden::ExecutionProof;
+use processor::{ExecutionOptions, Kernel, Program, ProgramInfo, StackInputs};
+use rand::seq::SliceRandom;
+use rand::Rng;
+use serde_json::{json, Value};
+use std::collections::{BTreeMap, BTreeSet, HashSet};
+use std::path::PathBuf;
+use std::sync::OnceLock;
+use vm_core::crypto::hash::RpoDigest;
+use vm_core::utils::{ByteReader, Deserializable, Serializable, SliceReader};
+use vm_core::{Felt, StackOutputs};
 
 pub fn meta() -> Meta {
-    Meta { level: "exploration", rule: "stub".into(), assumptions: vec![] }
+    Meta {
+        level: "exploration",
+        rule: "each evaluation = one (parsed AST or data value, serialisation configuration) pair: to_bytes/from_bytes (and write_into/read_from) round trip compared with == under the library's notion of equality, followed (for ASTs) by compiling original and round-tripped AST with identically configured fresh assemblers and executing both on the same random input; distinct = distinct (AST kind, imports-serialised?, locations-loaded?, size bucket, nesting depth, set of serde opcodes present) resp. (data type, shape class)".into(),
+        assumptions: vec![
+            "ASTs are exactly those the real parser produces from generated source text (catalog of every instruction form + random immediates + gadget programs of gen.rs); hand-built ASTs are out of scope".into(),
+            "the set of serde opcodes is derived from the real deserialiser by probing every first byte; coverage floors are relative to that set".into(),
+            "equality of compiled programs is MAST root + kernel + execution outcome on one random input under a 2^14 cycle limit".into(),
+        ],
+    }
 }
 
-pub fn run(_cfg: &Cfg) -> Report {
-    let mut rep = Report::new();
-    rep.inconclusive("not-implemented");
+// FIXED ENVIRONMENT (library, kernel) SO THAT IMPORTS RESOLVE
+// ================================================================================================
+
+pub const VLIB_ALPHA: &str = "#! alpha module of the fixed test library\n#! second line\n\n#! adds one\nexport.a0\n    push.1 add\nend\n\n#! uses two locals\nexport.a1.2\n    loc_store.0 loc_load.0 push.3 mul\nend\n\nproc.hidden\n    push.5 drop\nend\n\nexport.a2\n    exec.hidden exec.a0\n    sdepth push.16 neq while.true drop sdepth push.16 neq end\nend\n";
+pub const VLIB_GAMMA: &str = "use.vlib::alpha\n\nexport.alpha::a0->ra0\n\nexport.g0\n    push.2 mul exec.alpha::a0\nend\n\nexport.g1\n    dup.0 add\nend\n";
+pub const KERNEL_SRC: &str = "export.k0\n    push.7001 drop\nend\nexport.k1.2\n    push.7002 loc_store.1 padw caller dropw\nend\n";
+pub const ALPHA_PROCS: [&str; 3] = ["a0", "a1", "a2"];
+pub const GAMMA_PROCS: [&str; 3] = ["g0", "g1", "ra0"];
+pub const U64_PROCS: [&str; 3] = ["wrapping_add", "checked_mul", "overflowing_sub"];
+pub const KERNEL_PROCS: [&str; 2] = ["k0", "k1"];
+
+pub fn vlib_src() -> LibSrc {
+    LibSrc {
+        namespace: "vlib".into(),
+        modules: vec![
+            ("vlib::alpha".into(), VLIB_ALPHA.into()),
+            ("vlib::beta::gamma".into(), VLIB_GAMMA.into()),
+        ],
+    }
+}
+
+pub fn vlib() -> MaslLibrary {
+    build_lib(&vlib_src()).expect("fixed library builds")
+}
+
+/// The Case describing (source, fixed environment, inputs) for a generated program.
+pub fn env_case(src: &str, stdlib: bool, debug: bool, stack: Vec<u64>, advice: Vec<u64>) -> Case {
+    Case {
+        src: src.to_string(),
+        kernel: Some(KERNEL_SRC.into()),
+        libs: vec![vlib_src()],
+        stdlib,
+        debug_mode: debug,
+        stack,
+        advice_stack: advice,
+        ..Default::default()
+    }
+}
+
+// TEMPLATE CATALOG: EVERY INSTRUCTION FORM OF THE PARSER
+// ================================================================================================
+
+const SIMPLE: &[&str] = &[
+    "assert", "assert_eq", "assert_eqw", "assertz", "add", "sub", "mul", "div", "neg", "inv", "add.1",
+    "pow2", "exp", "ilog2", "not", "and", "or", "xor", "eq", "neq", "eqw", "lt", "lte", "gt", "gte",
+    "is_odd", "ext2add", "ext2sub", "ext2mul", "ext2div", "ext2neg", "ext2inv", "u32test",
+    "u32testw", "u32assert", "u32assert2", "u32assertw", "u32split", "u32cast", "u32wrapping_add",
+    "u32overflowing_add", "u32overflowing_add3", "u32wrapping_add3", "u32wrapping_sub",
+    "u32overflowing_sub", "u32wrapping_mul", "u32overflowing_mul", "u32overflowing_madd",
+    "u32wrapping_madd", "u32div", "u32mod", "u32divmod", "u32and", "u32or", "u32xor", "u32not",
+    "u32shr", "u32shl", "u32rotr", "u32rotl", "u32popcnt", "u32clz", "u32ctz", "u32clo", "u32cto",
+    "u32lt", "u32lte", "u32gt", "u32gte", "u32min", "u32max", "drop", "dropw", "padw", "dup", "dupw",
+    "swap", "swapw", "swapdw", "cswap", "cswapw", "cdrop", "cdropw", "sdepth", "caller", "clk",
+    "mem_load", "mem_loadw", "mem_store", "mem_storew", "mem_stream", "adv_pipe", "adv_loadw", "hash",
+    "hmerge", "hperm", "mtree_get", "mtree_set", "mtree_merge", "mtree_verify", "fri_ext2fold4",
+    "rcomb_base", "dynexec", "dyncall", "breakpoint", "adv.push_u64div", "adv.push_ext2intt",
+    "adv.push_smtget", "adv.push_smtset", "adv.push_smtpeek", "adv.push_mapval", "adv.push_mapvaln",
+    "adv.push_mtnode", "adv.insert_mem", "adv.insert_hdword", "adv.insert_hperm",
+    "adv.push_sig.rpo_falcon512", "debug.stack", "debug.mem", "debug.local",
+];
+
+/// Templates with typed holes `<NAME>`; see `SrcGen::hole` for the hole types.
+const TEMPLATES: &[&str] = &[
+    "assert.err=<E>", "assert_eq.err=<E>", "assert_eqw.err=<E>", "assertz.err=<E>", "assert.err=<CE>",
+    "add.<F>", "sub.<F>", "mul.<F>", "div.<FNZ>", "exp.<F>", "exp.u<EB>", "eq.<F>", "neq.<F>",
+    "u32assert.err=<E>", "u32assert2.err=<E>", "u32assertw.err=<E>", "u32assert2.err=<CE>",
+    "u32wrapping_add.<U32>", "u32overflowing_add.<U32>", "u32wrapping_sub.<U32>",
+    "u32overflowing_sub.<U32>", "u32wrapping_mul.<U32>", "u32overflowing_mul.<U32>",
+    "u32div.<U32NZ>", "u32mod.<U32NZ>", "u32divmod.<U32NZ>", "u32shr.<SH>", "u32shl.<SH>",
+    "u32rotr.<SH>", "u32rotl.<SH>", "dup.<I0_15>", "dupw.<I0_3>", "swap.<I1_15>", "swapw.<I1_3>",
+    "movup.<I2_15>", "movupw.<I2_3>", "movdn.<I2_15>", "movdnw.<I2_3>", "locaddr.<LI>",
+    "loc_load.<LI>", "loc_loadw.<LI>", "loc_store.<LI>", "loc_storew.<LI>", "loc_load.<CL>",
+    "locaddr.<CL>", "mem_load.<U32>", "mem_loadw.<U32>", "mem_store.<U32>", "mem_storew.<U32>",
+    "mem_load.<CU>", "mem_storew.<CU>", "adv_push.<AP>", "adv.push_mapval.<OFF>",
+    "adv.push_mapvaln.<OFF>", "adv.insert_hdword.<DOM>", "debug.stack.<U16NZ>", "debug.mem.<U32NZ>",
+    "debug.mem.<MI>", "debug.local.<U16>", "debug.local.<LI2>", "emit.<U32>", "trace.<U32>",
+    "emit.<CU>", "trace.<CU>", "exec.<LP>", "call.<LP>", "procref.<LP>", "exec.<IM>", "call.<IM>",
+    "procref.<IM>", "syscall.<SYS>", "call.<ROOT>", "<PUSH>",
+];
+
+const F_B: [u64; 11] = [0, 1, 2, 255, 256, 65535, 65536, (1 << 32) - 1, 1 << 32, P - 2, P - 1];
+const U32_B: [u64; 6] = [0, 1, 255, 65536, (1 << 31) + 5, (1u64 << 32) - 1];
+
+#[derive(Clone, Copy, Debug)]
+pub enum Pick {
+    /// j-th boundary value of every hole (lists are cycled)
+    Boundary(usize),
+    Random,
+}
+
+#[derive(Clone, Debug)]
+pub struct Import {
+    pub path: &'static str,
+    pub alias: String,
+    pub procs: &'static [&'static str],
+    /// written as `use.path->alias`
+    pub aliased: bool,
+}
+
+/// What the unit phase found broken; the random phase avoids these so that it can find *other*
+/// deviations (each broken unit keeps its own specific signature).
+#[derive(Clone, Debug, Default)]
+pub struct Disabled {
+    pub templates: HashSet<String>,
+    pub features: HashSet<String>,
+}
+
+pub struct SrcGen<'r> {
+    pub rng: &'r mut Rng8,
+    pub locals: u32,
+    pub local_procs: Vec<String>,
+    pub imports: Vec<Import>,
+    pub has_consts: bool,
+    pub disabled: &'r Disabled,
+    pub max_depth: usize,
+    /// set when something was generated that must not be compiled (e.g. a huge repeat count)
+    pub no_compile: bool,
+    /// expanded-size accounting: `exec` inlines and `repeat` unrolls, so the compiled size of a
+    /// source is the product of both; every top-level item gets a budget of expanded instructions
+    pub proc_cost: Vec<u64>,
+    pub spent: u64,
+    pub budget: u64,
+    cursor: usize,
+}
+
+fn le_hex(v: u64) -> String {
+    hex(&v.to_le_bytes())
+}
+
+fn be_hex_short(v: u64) -> String {
+    let h = format!("{:x}", v);
+    if h.len() % 2 == 1 {
+        format!("0{h}")
+    } else {
+        h
+    }
+}
+
+pub const CONST_DECLS: &str = "const.CZ=0\nconst.CA=7\nconst.CB=CA*3+1\nconst.CL=1\nconst.CU=4294967295\nconst.CF=18446744069414584320\nconst.CH=0x0100\n";
+
+impl<'r> SrcGen<'r> {
+    pub fn new(rng: &'r mut Rng8, disabled: &'r Disabled) -> Self {
+        let cursor = rng.gen_range(0..1000);
+        SrcGen {
+            rng,
+            locals: 0,
+            local_procs: vec![],
+            imports: vec![],
+            has_consts: false,
+            disabled,
+            max_depth: 3,
+            no_compile: false,
+            proc_cost: vec![],
+            spent: 0,
+            budget: 3000,
+            cursor,
+        }
+    }
+
+    fn pick_u(&mut self, list: &[u64], pick: Pick, lo: u64, hi_incl: u64) -> u64 {
+        match pick {
+            Pick::Boundary(j) => list[j % list.len()],
+            Pick::Random => {
+                if self.rng.gen_bool(0.3) {
+                    *list.choose(self.rng).unwrap()
+                } else {
+                    self.rng.gen_range(lo..=hi_incl)
+                }
+            }
+        }
+    }
+
+    fn felt_val(&mut self, pick: Pick) -> u64 {
+        match pick {
+            Pick::Boundary(j) => F_B[j % F_B.len()],
+            Pick::Random => biased_felt(self.rng),
+        }
+    }
+
+    /// number of boundary picks worth enumerating for a template
+    pub fn n_boundary(tpl: &str) -> usize {
+        let mut n = 1;
+        let mut rest = tpl;
+        while let Some(i) = rest.find('<') {
+            let j = rest[i..].find('>').map(|j| i + j).unwrap_or(rest.len());
+            let name = &rest[i + 1..j];
+            let k = match name {
+                "F" | "FNZ" => F_B.len(),
+                "E" | "U32" | "U32NZ" => U32_B.len(),
+                "I0_15" | "I1_15" | "I2_15" => 16,
+                "I0_3" | "I1_3" | "I2_3" => 4,
+                "PUSH" => N_PUSH_FORMS,
+                "EB" => 5,
+                "SH" | "AP" | "OFF" | "DOM" | "U16" | "U16NZ" | "MI" | "LI2" | "IM" => 4,
+                _ => 2,
+            };
+            n = n.max(k);
+            rest = &rest[j.min(rest.len() - 1) + 1..];
+        }
+        n
+    }
+
+    /// Value for a typed hole; None when the context cannot provide it (no locals, no imports...).
+    fn hole(&mut self, name: &str, pick: Pick) -> Option<String> {
+        let bj = match pick {
+            Pick::Boundary(j) => j,
+            Pick::Random => self.rng.gen_range(0..64),
+        };
+        Some(match name {
+            "F" => self.felt_val(pick).to_string(),
+            "FNZ" => self.felt_val(pick).max(1).to_string(),
+            "E" | "U32" => self.pick_u(&U32_B, pick, 0, u32::MAX as u64).to_string(),
+            "U32NZ" => self.pick_u(&U32_B, pick, 1, u32::MAX as u64).max(1).to_string(),
+            "SH" => self.pick_u(&[0, 1, 16, 31], pick, 0, 31).to_string(),
+            "EB" => self.pick_u(&[0, 1, 32, 63, 64], pick, 0, 64).to_string(),
+            "AP" => self.pick_u(&[1, 2, 15, 16], pick, 1, 16).to_string(),
+            "OFF" => self.pick_u(&[0, 1, 11, 12], pick, 0, 12).to_string(),
+            "DOM" => self.pick_u(&[0, 1, 128, 255], pick, 0, 255).to_string(),
+            "U16" => self.pick_u(&[0, 1, 256, 65535], pick, 0, 65535).to_string(),
+            "U16NZ" => self.pick_u(&[1, 2, 256, 65535], pick, 1, 65535).to_string(),
+            "I0_15" => (bj % 16).to_string(),
+            "I1_15" => (1 + bj % 15).to_string(),
+            "I2_15" => (2 + bj % 14).to_string(),
+            "I0_3" => (bj % 4).to_string(),
+            "I1_3" => (1 + bj % 3).to_string(),
+            "I2_3" => (2 + bj % 2).to_string(),
+            "MI" => {
+                let a = self.pick_u(&[0, 1, 65536, u32::MAX as u64], pick, 0, u32::MAX as u64);
+                let b = match bj % 3 {
+                    0 => a,
+                    1 => u32::MAX as u64,
+                    _ => a + (u32::MAX as u64 - a) / 2,
+                };
+                format!("{a}.{b}")
+            }
+            "LI2" => {
+                let a = self.pick_u(&[0, 1, 256, 65535], pick, 0, 65535);
+                let b = match bj % 3 {
+                    0 => a,
+                    1 => 65535,
+                    _ => a + (65535 - a) / 2,
+                };
+                format!("{a}.{b}")
+            }
+            "LI" => {
+                if self.locals == 0 {
+                    return None;
+                }
+                match pick {
+                    Pick::Boundary(j) if j % 2 == 0 => "0".to_string(),
+                    Pick::Boundary(_) => (self.locals - 1).to_string(),
+                    Pick::Random => self.rng.gen_range(0..self.locals).to_string(),
+                }
+            }
+            "CL" => {
+                if self.locals < 2 || !self.has_consts {
+                    return None;
+                }
+                "CL".to_string()
+            }
+            "CE" | "CU" => {
+                if !self.has_consts {
+                    return None;
+                }
+                ["CZ", "CA", "CB", "CU", "CH"][bj % 5].to_string()
+            }
+            "LP" => {
+                if self.local_procs.is_empty() {
+                    return None;
+                }
+                let i = match pick {
+                    Pick::Boundary(j) => j % self.local_procs.len(),
+                    Pick::Random => self.rng.gen_range(0..self.local_procs.len()),
+                };
+                self.local_procs[i].clone()
+            }
+            "IM" => {
+                if self.imports.is_empty() {
+                    return None;
+                }
+                let im = self.imports[bj % self.imports.len()].clone();
+                let p = im.procs[(bj / self.imports.len().max(1)) % im.procs.len()];
+                format!("{}::{}", im.alias, p)
+            }
+            "SYS" => {
+                if bj % 4 == 3 {
+                    "not_in_kernel".to_string()
+                } else {
+                    KERNEL_PROCS[bj % 2].to_string()
+                }
+            }
+            "ROOT" => {
+                let mut s = String::from("0x");
+                for i in 0..4 {
+                    let v = if bj % 2 == 0 { F_B[(bj + 3 * i) % F_B.len()] } else { biased_felt(self.rng) };
+                    s.push_str(&le_hex(v));
+                }
+                s
+            }
+            "PUSH" => return self.push_form(bj),
+            _ => return None,
+        })
+    }
+
+    fn vals(&mut self, n: usize, max: u64) -> Vec<u64> {
+        // n values <= max with at least one > max/2+... (so the list class is determined by `max`)
+        let mut v: Vec<u64> = (0..n).map(|_| if max == P - 1 { biased_felt(self.rng) } else { self.rng.gen_range(0..=max) }).collect();
+        let i = self.rng.gen_range(0..n);
+        v[i] = max;
+        v
+    }
+
+    fn push_form(&mut self, k: usize) -> Option<String> {
+        let n_list = [2usize, 3, 5, 15, 16][self.rng.gen_range(0..5)];
+        let join = |v: &[u64]| v.iter().map(|x| x.to_string()).collect::<Vec<_>>().join(".");
+        Some(match k % N_PUSH_FORMS {
+            0 => "push.0".into(),
+            1 => "push.255".into(),
+            2 => "push.256".into(),
+            3 => "push.65535".into(),
+            4 => "push.65536".into(),
+            5 => "push.4294967295".into(),
+            6 => "push.4294967296".into(),
+            7 => format!("push.{}", P - 1),
+            8 => format!("push.0x{}", be_hex_short(biased_felt(self.rng))),
+            9 => "push.0x00".into(),
+            10 => "push.0xffffffff00000000".into(),
+            11 => format!("push.{}", join(&self.vals(n_list, 255))),
+            12 => format!("push.{}", join(&self.vals(n_list, 65535))),
+            13 => format!("push.{}", join(&self.vals(n_list, u32::MAX as u64))),
+            14 => {
+                let n = [2usize, 3, 5, 16][self.rng.gen_range(0..4)];
+                format!("push.{}", join(&self.vals(n, P - 1)))
+            }
+            15 => format!("push.{}", join(&self.vals(4, P - 1))),
+            16 => format!("push.{}", join(&self.vals(4, 255))),
+            17 => {
+                // long hex, big values => PushWord
+                let v = self.vals(4, P - 1);
+                format!("push.0x{}", v.iter().map(|x| le_hex(*x)).collect::<String>())
+            }
+            18 => {
+                // long hex, small values => a u8/u16/u32 list of four
+                let m = [255u64, 65535, u32::MAX as u64][self.rng.gen_range(0..3)];
+                let v = self.vals(4, m);
+                format!("push.0x{}", v.iter().map(|x| le_hex(*x)).collect::<String>())
+            }
+            19 => {
+                // mixed decimal / short hex list
+                let v = self.vals(n_list, P - 1);
+                let parts: Vec<String> = v
+                    .iter()
+                    .enumerate()
+                    .map(|(i, x)| if i % 2 == 0 { format!("0x{}", be_hex_short(*x)) } else { x.to_string() })
+                    .collect();
+                format!("push.{}", parts.join("."))
+            }
+            20 => {
+                if !self.has_consts {
+                    return None;
+                }
+                format!("push.{}", ["CZ", "CA", "CB", "CU", "CF", "CH"][self.rng.gen_range(0..6)])
+            }
+            21 => {
+                if !self.has_consts {
+                    return None;
+                }
+                "push.CA.3.CF.CZ.0x10".into()
+            }
+            22 => format!("push.{}", biased_felt(self.rng)),
+            _ => format!("push.{}", self.rng.gen::<u32>()),
+        })
+    }
+
+    /// Instantiates a template; None if a hole cannot be filled in this context.
+    pub fn instantiate(&mut self, tpl: &str, pick: Pick) -> Option<String> {
+        let mut out = String::new();
+        let mut rest = tpl;
+        while let Some(i) = rest.find('<') {
+            out.push_str(&rest[..i]);
+            let j = rest[i..].find('>')? + i;
+            let v = self.hole(&rest[i + 1..j], pick)?;
+            out.push_str(&v);
+            rest = &rest[j + 1..];
+        }
+        out.push_str(rest);
+        Some(out)
+    }
+
+    /// One random instruction (text) valid in the current context.
+    pub fn instr(&mut self) -> String {
+        for _ in 0..20 {
+            let r = self.rng.gen_range(0..100);
+            let tpl: &str = if r < 25 {
+                SIMPLE[self.rng.gen_range(0..SIMPLE.len())]
+            } else if r < 55 {
+                self.cursor += 1;
+                let all = SIMPLE.len() + TEMPLATES.len();
+                let k = self.cursor % all;
+                if k < SIMPLE.len() {
+                    SIMPLE[k]
+                } else {
+                    TEMPLATES[k - SIMPLE.len()]
+                }
+            } else {
+                TEMPLATES[self.rng.gen_range(0..TEMPLATES.len())]
+            };
+            if self.disabled.templates.contains(tpl) {
+                continue;
+            }
+            let pick = if self.rng.gen_bool(0.4) { Pick::Boundary(self.rng.gen_range(0..64)) } else { Pick::Random };
+            if let Some(s) = self.instantiate(tpl, pick) {
+                return s;
+            }
+        }
+        "swap".into()
+    }
+
+    fn sep(&mut self) -> &'static str {
+        match self.rng.gen_range(0..10) {
+            0..=4 => "\n    ",
+            5..=7 => " ",
+            8 => "   # a comment\n",
+            _ => "\n\n        ",
+        }
+    }
+
+    /// A body of about `n` instructions with nested control flow.
+    pub fn body(&mut self, n: usize, depth: usize) -> String {
+        self.body_m(n, depth, 1)
+    }
+
+    fn instr_cost(&self, text: &str) -> u64 {
+        if let Some(name) = text.strip_prefix("exec.") {
+            if let Some(i) = self.local_procs.iter().position(|p| p == name) {
+                return self.proc_cost.get(i).copied().unwrap_or(1).max(1);
+            }
+        }
+        1
+    }
+
+    fn body_m(&mut self, n: usize, depth: usize, mult: u64) -> String {
+        let mut out = String::new();
+        let mut i = 0;
+        while i < n.max(1) {
+            let flow = depth < self.max_depth && self.rng.gen_bool(0.15);
+            if flow {
+                let inner = self.rng.gen_range(1..=(n / 2).clamp(1, 5));
+                match self.rng.gen_range(0..8) {
+                    0..=1 => {
+                        let t = self.body_m(inner, depth + 1, mult);
+                        let e = self.body_m(inner, depth + 1, mult);
+                        out.push_str(&format!("if.true{}{t}else{}{e}end", self.sep(), self.sep()));
+                    }
+                    2 => {
+                        let t = self.body_m(inner, depth + 1, mult);
+                        out.push_str(&format!("if.true{}{t}end", self.sep()));
+                    }
+                    3..=4 => {
+                        let b = self.body_m(inner, depth + 1, mult);
+                        out.push_str(&format!("while.true{}{b}end", self.sep()));
+                    }
+                    _ => {
+                        let (cnt, m) = match self.rng.gen_range(0..12) {
+                            0 if self.has_consts => ("CA".to_string(), 7),
+                            1 if !self.disabled.features.contains("repeat-big") => {
+                                // exercises the u32 width of the counter; unrolling it is not an option
+                                self.no_compile = true;
+                                (["65536", "4294967295", "16777217"][self.rng.gen_range(0..3)].to_string(), 1)
+                            }
+                            _ => {
+                                let c = self.rng.gen_range(1..5u64);
+                                (c.to_string(), c)
+                            }
+                        };
+                        let b = self.body_m(inner, depth + 1, mult * m);
+                        out.push_str(&format!("repeat.{cnt}{}{b}end", self.sep()));
+                    }
+                }
+                i += inner;
+            } else {
+                let mut t = self.instr();
+                let mut c = self.instr_cost(&t) * mult;
+                if self.spent + c > self.budget {
+                    t = "swap".into();
+                    c = mult;
+                }
+                self.spent += c;
+                out.push_str(&t);
+                i += 1;
+            }
+            out.push_str(self.sep());
+            if self.spent >= self.budget {
+                break;
+            }
+        }
+        out
+    }
+
+    fn doc_lines(&mut self) -> String {
+        let n = self.rng.gen_range(1..4);
+        let words = ["Returns", "the", "sum", "of", "inputs", "[a, b, ...]", "->", "cycles: 12", "é ü", "0x00", "#", "stack"];
+        (0..n)
+            .map(|_| {
+                let k = self.rng.gen_range(0..6);
+                let w: Vec<&str> = (0..k).map(|_| *words.choose(self.rng).unwrap()).collect();
+                format!("#! {}\n", w.join(" "))
+            })
+            .collect()
+    }
+
+    fn pick_imports(&mut self, stdlib: bool) -> String {
+        let mut s = String::new();
+        self.imports.clear();
+        let alias_ok = !self.disabled.features.contains("import-alias") && !self.disabled.features.contains("module-import-alias");
+        let mut cands: Vec<(&'static str, &'static str, &'static [&'static str])> =
+            vec![("vlib::alpha", "alpha", &ALPHA_PROCS), ("vlib::beta::gamma", "gamma", &GAMMA_PROCS)];
+        if stdlib {
+            cands.push(("std::math::u64", "u64", &U64_PROCS));
+        }
+        for (path, last, procs) in cands {
+            if self.rng.gen_bool(0.7) {
+                let aliased = alias_ok && self.rng.gen_bool(0.35);
+                let alias = if aliased { format!("{}_al{}", last, self.rng.gen_range(0..9)) } else { last.to_string() };
+                if aliased {
+                    s.push_str(&format!("use.{path}->{alias}\n"));
+                } else {
+                    s.push_str(&format!("use.{path}\n"));
+                }
+                self.imports.push(Import { path, alias, procs, aliased });
+            }
+        }
+        s
+    }
+
+    fn locals_choice(&mut self) -> u32 {
+        match self.rng.gen_range(0..12) {
+            0..=3 => 0,
+            4..=8 => self.rng.gen_range(1..9),
+            9 => 255,
+            10 => 256,
+            _ => 65535,
+        }
+    }
+}
+
+pub const N_PUSH_FORMS: usize = 24;
+
+/// Random program source (imports, constants, procedures with locals, nested body).
+pub fn gen_program_src(rng: &mut Rng8, disabled: &Disabled, stdlib: bool, size: usize) -> (String, bool) {
+    let mut g = SrcGen::new(rng, disabled);
+    g.max_depth = g.rng.gen_range(1..5);
+    let mut src = String::new();
+    if g.rng.gen_bool(0.2) {
+        src.push_str("# plain comment at the top\n");
+    }
+    src.push_str(&g.pick_imports(stdlib));
+    if g.rng.gen_bool(0.7) {
+        src.push_str(CONST_DECLS);
+        g.has_consts = true;
+    }
+    let np = g.rng.gen_range(0..5);
+    for i in 0..np {
+        let name = match g.rng.gen_range(0..4) {
+            0 => format!("p{i}"),
+            1 => format!("proc_with_a_long_name_{i}"),
+            2 => format!("P{i}x"),
+            _ => format!("f_{i}"),
+        };
+        g.locals = g.locals_choice();
+        if g.rng.gen_bool(0.3) {
+            src.push_str(&g.doc_lines());
+        }
+        let decl = if g.locals > 0 || g.rng.gen_bool(0.1) { format!("proc.{name}.{}", g.locals) } else { format!("proc.{name}") };
+        let n = g.rng.gen_range(1..(size / 2).max(2));
+        g.spent = 0;
+        let b = g.body(n, 1);
+        src.push_str(&format!("{decl}\n    {b}\nend\n\n"));
+        g.local_procs.push(name);
+        g.proc_cost.push(g.spent);
+    }
+    g.locals = 0;
+    g.spent = 0;
+    let b = g.body(size, 0);
+    src.push_str(&format!("begin\n    {b}\nend\n"));
+    (src, g.no_compile)
+}
+
+/// Random library-module source (module docs, imports, constants, re-exports, exported and
+/// internal procedures with docs and locals). Returns the source and whether it may be compiled.
+pub fn gen_module_src(rng: &mut Rng8, disabled: &Disabled, stdlib: bool, size: usize) -> (String, bool) {
+    let mut g = SrcGen::new(rng, disabled);
+    g.max_depth = g.rng.gen_range(1..4);
+    let mut src = String::new();
+    if g.rng.gen_bool(0.6) && !disabled.features.contains("module-docs") {
+        src.push_str(&g.doc_lines());
+        src.push('\n');
+    }
+    src.push_str(&g.pick_imports(stdlib));
+    if g.rng.gen_bool(0.7) {
+        src.push_str(CONST_DECLS);
+        g.has_consts = true;
+    }
+    let mut n_exports = 0;
+    // re-exports
+    if !disabled.features.contains("module-reexport") {
+        let ims = g.imports.clone();
+        for (k, im) in ims.iter().enumerate() {
+            if g.rng.gen_bool(0.5) {
+                let p = im.procs[g.rng.gen_range(0..im.procs.len())];
+                if g.rng.gen_bool(0.4) {
+                    src.push_str(&g.doc_lines());
+                }
+                if g.rng.gen_bool(0.5) && !disabled.features.contains("module-reexport-alias") {
+                    src.push_str(&format!("export.{}::{}->re_{}_{}\n\n", im.alias, p, k, p));
+                } else {
+                    src.push_str(&format!("export.{}::{}\n\n", im.alias, p));
+                }
+                n_exports += 1;
+            }
+        }
+    }
+    let np = g.rng.gen_range(1..6);
+    for i in 0..np {
+        let export = g.rng.gen_bool(0.6) || (i == np - 1 && n_exports == 0);
+        let name = if export { format!("e{i}") } else { format!("i{i}") };
+        g.locals = g.locals_choice();
+        if g.rng.gen_bool(0.5) && !disabled.features.contains("proc-docs") {
+            src.push_str(&g.doc_lines());
+        }
+        let kw = if export { "export" } else { "proc" };
+        let decl = if g.locals > 0 { format!("{kw}.{name}.{}", g.locals) } else { format!("{kw}.{name}") };
+        let n = g.rng.gen_range(1..size.max(2));
+        g.spent = 0;
+        let b = g.body(n, 1);
+        src.push_str(&format!("{decl}\n    {b}\nend\n\n"));
+        g.local_procs.push(name);
+        g.proc_cost.push(g.spent);
+        if export {
+            n_exports += 1;
+        }
+    }
+    (src, g.no_compile)
+}
+
+// AST WALKING, SERDE OPCODE TABLE (DERIVED FROM THE REAL DESERIALISER)
+// ================================================================================================
+
+pub fn variant_name(i: &Instruction) -> String {
+    let d = format!("{:?}", i);
+    d.split(|c: char| c == '(' || c == ' ' || c == '{').next().unwrap_or("").to_string()
+}
+
+/// Calls `f(node, depth)` for every node, depth-first.
+pub fn walk(nodes: &[Node], depth: usize, f: &mut dyn FnMut(&Node, usize)) {
+    for n in nodes {
+        f(n, depth);
+        match n {
+            Node::Instruction(_) => {}
+            Node::IfElse { true_case, false_case } => {
+                walk(true_case.nodes(), depth + 1, f);
+                walk(false_case.nodes(), depth + 1, f);
+            }
+            Node::Repeat { body, .. } | Node::While { body } => walk(body.nodes(), depth + 1, f),
+        }
+    }
+}
+
+#[derive(Default, Clone)]
+pub struct AstStats {
+    pub nodes: usize,
+    pub depth: usize,
+    pub opcodes: BTreeSet<u8>,
+    pub hist: BTreeMap<String, u64>,
+    pub imm: BTreeMap<String, u64>,
+}
+
+impl AstStats {
+    pub fn add_nodes(&mut self, nodes: &[Node]) {
+        walk(nodes, 0, &mut |n, d| {
+            self.nodes += 1;
+            self.depth = self.depth.max(d);
+            match n {
+                Node::Instruction(i) => {
+                    let name = variant_name(i);
+                    let b = catch(|| i.to_bytes()).unwrap_or_default();
+                    match b.first() {
+                        Some(op) => {
+                            self.opcodes.insert(*op);
+                            *self.hist.entry(format!("{:03}:{name}", op)).or_default() += 1;
+                            if b.len() > 1 {
+                                let key = match i {
+                                    Instruction::AdvInject(_) => format!("AdvInject:sub{}:len{}", b[1], b.len()),
+                                    Instruction::Debug(_) => format!("Debug:sub{}:len{}", b[1], b.len()),
+                                    _ => format!("{name}:len{}", b.len()),
+                                };
+                                *self.imm.entry(key).or_default() += 1;
+                            }
+                        }
+                        None => {
+                            *self.hist.entry(format!("---:{name}(not encoded)")).or_default() += 1;
+                        }
+                    }
+                }
+                Node::IfElse { false_case, .. } => {
+                    self.opcodes.insert(253);
+                    *self.hist.entry("253:IfElse".into()).or_default() += 1;
+                    let k = if false_case.nodes().is_empty() { "IfElse:no-else" } else { "IfElse:else" };
+                    *self.imm.entry(k.into()).or_default() += 1;
+                }
+                Node::Repeat { times, .. } => {
+                    self.opcodes.insert(254);
+                    *self.hist.entry("254:Repeat".into()).or_default() += 1;
+                    let k = if *times > 65535 { "Repeat:times>u16" } else { "Repeat:times<=u16" };
+                    *self.imm.entry(k.into()).or_default() += 1;
+                }
+                Node::While { .. } => {
+                    self.opcodes.insert(255);
+                    *self.hist.entry("255:While".into()).or_default() += 1;
+                }
+            }
+        });
+    }
+    pub fn of_program(ast: &ProgramAst) -> Self {
+        let mut s = AstStats::default();
+        s.add_nodes(ast.body().nodes());
+        for p in ast.procedures() {
+            s.add_nodes(p.body.nodes());
+        }
+        s
+    }
+    pub fn of_module(ast: &ModuleAst) -> Self {
+        let mut s = AstStats::default();
+        for p in ast.procs() {
+            s.add_nodes(p.body.nodes());
+        }
+        s
+    }
+    pub fn flush(&self, rep: &mut Report) {
+        for (k, v) in &self.hist {
+            rep.count_n("serde_opcode", k, *v);
+        }
+        for (k, v) in &self.imm {
+            rep.count_n("imm_form", k, *v);
+        }
+    }
+    pub fn key(&self) -> String {
+        let mut h: u64 = 0xcbf29ce484222325;
+        for b in &self.opcodes {
+            h ^= *b as u64;
+            h = h.wrapping_mul(0x100000001b3);
+        }
+        let bucket = match self.nodes {
+            0..=3 => "xs",
+            4..=15 => "s",
+            16..=63 => "m",
+            _ => "l",
+        };
+        format!("{bucket}|d{}|ops{:x}", self.depth, h)
+    }
+}
+
+/// The opcodes the real `Node` deserialiser accepts as a first byte, found by probing: byte `b`
+/// followed by 0x01 (or 0x00) filler decodes (the filler is a valid immediate for every opcode:
+/// counts of 257 `assert.err=16843009` nodes, Felt 0x0101010101010101 < p, sub-opcode 1 or 0, ...).
+pub fn valid_opcodes() -> &'static Vec<u8> {
+    static V: OnceLock<Vec<u8>> = OnceLock::new();
+    V.get_or_init(|| {
+        (0..=255u8)
+            .filter(|b| {
+                [1u8, 0u8].iter().any(|fill| {
+                    let mut bytes = vec![*b];
+                    bytes.extend(std::iter::repeat(*fill).take(8192));
+                    matches!(catch(|| Node::read_from_bytes(&bytes)), Ok(Ok(_)))
+                })
+            })
+            .collect()
+    })
+}
+
+/// Sub-opcodes accepted after `prefix` (the AdvInject / Debug opcode byte).
+pub fn valid_subcodes(prefix: u8) -> Vec<u8> {
+    (0..=255u8)
+        .filter(|b| {
+            [1u8, 0u8].iter().any(|fill| {
+                let mut bytes = vec![prefix, *b];
+                bytes.extend(std::iter::repeat(*fill).take(64));
+                matches!(catch(|| Node::read_from_bytes(&bytes)), Ok(Ok(_)))
+            })
+        })
+        .collect()
+}
+
+// ROUND-TRIP CHECKS OF ASTS
+// ================================================================================================
+
+#[derive(Clone, Debug)]
+pub struct Fail {
+    /// stable kind, e.g. `imports=1,locs=0/decode-err`
+    pub kind: String,
+    pub detail: String,
+}
+
+/// `kind` arrives as `<cfg>/<api>/<class...>` or `<cfg>/<class...>`; the signature keeps only the
+/// class (one defect = one signature whatever configuration exposes it), the detail keeps all.
+fn fail(kind: impl Into<String>, detail: impl Into<String>) -> Fail {
+    let kind: String = kind.into();
+    let class: Vec<&str> = kind.split('/').filter(|p| !p.starts_with("imports=") && *p != "from_bytes" && *p != "read_from").collect();
+    Fail { kind: class.join("/"), detail: format!("[{kind}] {}", detail.into()) }
+}
+
+fn cleared_proc(p: &ProcedureAst) -> ProcedureAst {
+    let mut q = p.clone();
+    q.clear_locations();
+    q
+}
+
+/// ProgramAst has no `clear_locations()`: compare its parts the way `==` would after clearing.
+fn program_eq_ignoring_locations(a: &ProgramAst, b: &ProgramAst) -> bool {
+    a.body() == b.body()
+        && a.import_info() == b.import_info()
+        && a.procedures().len() == b.procedures().len()
+        && a.procedures().iter().zip(b.procedures()).all(|(x, y)| cleared_proc(x) == cleared_proc(y))
+}
+
+pub const CONFIGS: [(bool, bool); 4] = [(true, true), (true, false), (false, true), (false, false)];
+
+/// Round-trips a ProgramAst under the four configurations; returns the failures and the
+/// round-tripped ASTs (ready to compile: import info restored) per configuration.
+pub fn roundtrip_program(ast: &ProgramAst, rep: &mut Report, key: &str) -> (Vec<Fail>, Vec<((bool, bool), ProgramAst)>) {
+    let mut fails = vec![];
+    let mut outs = vec![];
+    for (imports, locs) in CONFIGS {
+        let cfg = format!("imports={},locs={}", imports as u8, locs as u8);
+        rep.eval(&format!("program|{cfg}|{key}"));
+        rep.count("ast_config", &format!("program|{cfg}"));
+        let opts = AstSerdeOptions::new(imports);
+        // encode: to_bytes and write_into must agree
+        let enc = catch(|| {
+            let a = ast.to_bytes(opts);
+            let mut b = vec![];
+            ast.write_into(&mut b, opts);
+            let mut l = vec![];
+            ast.write_source_locations(&mut l);
+            (a, b, l)
+        });
+        let (bytes, bytes2, locbytes) = match enc {
+            Ok(x) => x,
+            Err(p) => {
+                fails.push(fail(format!("{cfg}/encode-panic/{}", p.site()), p.message));
+                continue;
+            }
+        };
+        if bytes != bytes2 {
+            fails.push(fail(format!("{cfg}/to_bytes-vs-write_into"), "to_bytes and write_into differ"));
+        }
+        // decode A: from_bytes + separate location buffer
+        let dec = catch(|| -> Result<(ProgramAst, bool), String> {
+            let mut a = ProgramAst::from_bytes(&bytes).map_err(|e| format!("from_bytes: {e}"))?;
+            let mut left = false;
+            if locs {
+                let mut r = SliceReader::new(&locbytes);
+                a.load_source_locations(&mut r).map_err(|e| format!("load_source_locations: {e}"))?;
+                left = r.has_more_bytes();
+            }
+            Ok((a, left))
+        });
+        // decode B: read_from on one concatenated buffer
+        let dec_b = catch(|| -> Result<(ProgramAst, bool), String> {
+            let mut all = bytes.clone();
+            all.extend_from_slice(&locbytes);
+            let mut r = SliceReader::new(&all);
+            let mut a = ProgramAst::read_from(&mut r).map_err(|e| format!("read_from: {e}"))?;
+            if locs {
+                a.load_source_locations(&mut r).map_err(|e| format!("load_source_locations: {e}"))?;
+                Ok((a, r.has_more_bytes()))
+            } else {
+                Ok((a, false))
+            }
+        });
+        for (api, d) in [("from_bytes", dec), ("read_from", dec_b)] {
+            match d {
+                Err(p) => fails.push(fail(format!("{cfg}/{api}/decode-panic/{}", p.site()), p.message)),
+                Ok(Err(e)) => fails.push(fail(format!("{cfg}/{api}/decode-err"), e)),
+                Ok(Ok((rt, leftover))) => {
+                    if leftover {
+                        fails.push(fail(format!("{cfg}/{api}/location-bytes-left-over"), "location stream not fully consumed"));
+                    }
+                    let rt = if imports {
+                        rt
+                    } else {
+                        if !rt.import_info().is_empty() {
+                            fails.push(fail(format!("{cfg}/{api}/imports-present"), "imports were not serialised but are present"));
+                            continue;
+                        }
+                        match catch(|| rt.with_import_info(ast.import_info().clone())) {
+                            Ok(x) => x,
+                            Err(p) => {
+                                fails.push(fail(format!("{cfg}/{api}/with_import_info-panic"), p.message));
+                                continue;
+                            }
+                        }
+                    };
+                    let equal = if locs { &rt == ast } else { program_eq_ignoring_locations(&rt, ast) };
+                    if !equal {
+                        let what = if rt.import_info() != ast.import_info() {
+                            "import-info"
+                        } else if rt.body().nodes() != ast.body().nodes() {
+                            "body-nodes"
+                        } else if !program_eq_ignoring_locations(&rt, ast) {
+                            "procedures"
+                        } else {
+                            "locations"
+                        };
+                        fails.push(fail(format!("{cfg}/{api}/not-equal/{what}"), format!("round-tripped ProgramAst differs in {what}")));
+                    }
+                    // re-encoding must be a fixed point
+                    if let Ok(b2) = catch(|| rt.to_bytes(opts)) {
+                        if b2 != bytes {
+                            fails.push(fail(format!("{cfg}/{api}/reencode-differs"), "to_bytes(from_bytes(b)) != b"));
+                        }
+                    }
+                    if api == "from_bytes" {
+                        outs.push(((imports, locs), rt));
+                    }
+                }
+            }
+        }
+    }
+    (fails, outs)
+}
+
+pub fn roundtrip_module(ast: &ModuleAst, rep: &mut Report, key: &str) -> (Vec<Fail>, Vec<((bool, bool), ModuleAst)>) {
+    let mut fails = vec![];
+    let mut outs = vec![];
+    for (imports, locs) in CONFIGS {
+        let cfg = format!("imports={},locs={}", imports as u8, locs as u8);
+        rep.eval(&format!("module|{cfg}|{key}"));
+        rep.count("ast_config", &format!("module|{cfg}"));
+        let opts = AstSerdeOptions::new(imports);
+        let enc = catch(|| {
+            let a = ast.to_bytes(opts);
+            let mut b = vec![];
+            ast.write_into(&mut b, opts);
+            let mut l = vec![];
+            ast.write_source_locations(&mut l);
+            (a, b, l)
+        });
+        let (bytes, body, locbytes) = match enc {
+            Ok(x) => x,
+            Err(p) => {
+                fails.push(fail(format!("{cfg}/encode-panic/{}", p.site()), p.message));
+                continue;
+            }
+        };
+        if bytes.len() != body.len() + 1 || bytes[1..] != body[..] {
+            fails.push(fail(format!("{cfg}/to_bytes-vs-write_into"), "to_bytes is not header + write_into"));
+        }
+        let dec = catch(|| -> Result<(ModuleAst, bool), String> {
+            let mut a = ModuleAst::from_bytes(&bytes).map_err(|e| format!("from_bytes: {e}"))?;
+            let mut left = false;
+            if locs {
+                let mut r = SliceReader::new(&locbytes);
+                a.load_source_locations(&mut r).map_err(|e| format!("load_source_locations: {e}"))?;
+                left = r.has_more_bytes();
+            }
+            Ok((a, left))
+        });
+        let dec_b = catch(|| -> Result<(ModuleAst, bool), String> {
+            let mut all = body.clone();
+            all.extend_from_slice(&locbytes);
+            let mut r = SliceReader::new(&all);
+            let mut a = ModuleAst::read_from(&mut r, opts).map_err(|e| format!("read_from: {e}"))?;
+            if locs {
+                a.load_source_locations(&mut r).map_err(|e| format!("load_source_locations: {e}"))?;
+                Ok((a, r.has_more_bytes()))
+            } else {
+                Ok((a, false))
+            }
+        });
+        for (api, d) in [("from_bytes", dec), ("read_from", dec_b)] {
+            match d {
+                Err(p) => fails.push(fail(format!("{cfg}/{api}/decode-panic/{}", p.site()), p.message)),
+                Ok(Err(e)) => fails.push(fail(format!("{cfg}/{api}/decode-err"), e)),
+                Ok(Ok((rt, leftover))) => {
+                    if leftover {
+                        fails.push(fail(format!("{cfg}/{api}/location-bytes-left-over"), "location stream not fully consumed"));
+                    }
+                    let rt = if imports {
+                        rt
+                    } else {
+                        if !rt.import_info().is_empty() {
+                            fails.push(fail(format!("{cfg}/{api}/imports-present"), "imports were not serialised but are present"));
+                            continue;
+                        }
+                        match catch(|| rt.with_import_info(ast.import_info().clone())) {
+                            Ok(x) => x,
+                            Err(p) => {
+                                fails.push(fail(format!("{cfg}/{api}/with_import_info-panic"), p.message));
+                                continue;
+                            }
+                        }
+                    };
+                    let equal = if locs {
+                        &rt == ast
+                    } else {
+                        let mut c = ast.clone();
+                        c.clear_locations();
+                        rt == c
+                    };
+                    if !equal {
+                        let what = if rt.import_info() != ast.import_info() {
+                            "import-info"
+                        } else if rt.docs() != ast.docs() {
+                            "docs"
+                        } else if rt.reexported_procs() != ast.reexported_procs() {
+                            "reexports"
+                        } else {
+                            "procedures-or-locations"
+                        };
+                        fails.push(fail(format!("{cfg}/{api}/not-equal/{what}"), format!("round-tripped ModuleAst differs in {what}")));
+                    }
+                    if let Ok(b2) = catch(|| rt.to_bytes(opts)) {
+                        if b2 != bytes {
+                            fails.push(fail(format!("{cfg}/{api}/reencode-differs"), "to_bytes(from_bytes(b)) != b"));
+                        }
+                    }
+                    if api == "from_bytes" {
+                        outs.push(((imports, locs), rt));
+                    }
+                }
+            }
+        }
+    }
+    (fails, outs)
+}
+
+// COMPILE + EXECUTE COMPARISON
+// ================================================================================================
+
+/// Outcome of compile (+ execute) reduced to what must be equal between original and round trip.
+#[derive(Clone, Debug, PartialEq, Eq)]
+pub struct Built {
+    pub compile: String,
+    pub exec: String,
+}
+
+fn exec_opts() -> ExecutionOptions {
+    ExecutionOptions::new(Some(1 << 14), 64, false).expect("options")
+}
+
+fn exec_class(case: &Case, prog: &Program) -> String {
+    match exec_host(prog, case.stack_inputs(), case.host(), exec_opts()) {
+        ExecOutcome::Ok(t) => {
+            let o = t.stack_outputs();
+            format!("ok:{:?}|{:?}", o.stack(), o.overflow_addrs())
+        }
+        ExecOutcome::Err(e) => format!("err:{e:?}"),
+        ExecOutcome::Panic(p) => format!("panic:{}", p.site()),
+    }
+}
+
+/// Compiles `ast` with a fresh assembler configured from `case` and executes it on the case's inputs.
+pub fn build(case: &Case, ast: &ProgramAst, execute: bool) -> Built {
+    let r = catch(|| -> Result<Program, String> {
+        let asm = case.assembler()?;
+        asm.compile_ast(ast).map_err(|e| e.to_string())
+    });
+    match r {
+        Ok(Ok(p)) => {
+            let compile = format!("ok:{}|kernel:{}", hex(&p.hash().as_bytes()), hex(&p.kernel().to_bytes()));
+            let exec = if execute { exec_class(case, &p) } else { "skipped".into() };
+            Built { compile, exec }
+        }
+        Ok(Err(e)) => Built { compile: format!("err:{e}"), exec: "-".into() },
+        Err(p) => Built { compile: format!("panic:{}", p.site()), exec: "-".into() },
+    }
+}
+
+fn class_of(s: &str) -> &str {
+    s.split(':').next().unwrap_or("")
+}
+
+/// Full check of one program source in the fixed environment. Returns false if it did not parse.
+pub fn check_program_src(case: &Case, compile: bool, sig_prefix: &str, rep: &mut Report) -> Option<AstStats> {
+    let ast = match catch(|| ProgramAst::parse(&case.src)) {
+        Ok(Ok(a)) => a,
+        Ok(Err(e)) => {
+            rep.count("parse", "program-err");
+            rep.count("parse_err", &truncate(&format!("{e}"), 60));
+            return None;
+        }
+        Err(p) => {
+            rep.count("parse", &format!("program-panic:{}", p.site()));
+            return None;
+        }
+    };
+    rep.count("parse", "program-ok");
+    let stats = AstStats::of_program(&ast);
+    stats.flush(rep);
+    let wit = |extra: &str| json!({"kind": "program", "case": case.to_json(), "compile": compile, "sig_prefix": sig_prefix, "note": extra});
+    let (fails, outs) = roundtrip_program(&ast, rep, &stats.key());
+    let mut seen = HashSet::new();
+    for f in &fails {
+        // one-at-a-time units: the first failure names the defect, the rest are its echoes
+        if (!sig_prefix.is_empty() && !seen.is_empty()) || !seen.insert(f.kind.clone()) {
+            rep.count("secondary_failures_not_reported_separately", &f.kind);
+            continue;
+        }
+        rep.violation(format!("{sig_prefix}program-ast/{}", f.kind), format!("{} :: src: {}", f.detail, truncate(&case.src, 300)), wit(&f.kind));
+    }
+    if compile {
+        // `adv.insert_mem` sizes a host-side allocation from two stack values (observed: a
+        // 133 GB request => process abort); with random stacks such programs are compiled only.
+        let execute = !case.src.contains("adv.insert_mem");
+        let base = build(case, &ast, execute);
+        rep.count("compile", class_of(&base.compile));
+        rep.count("exec", class_of(&base.exec));
+        // not C10's business (both sides behave alike), but worth showing in the evidence
+        if base.compile.starts_with("panic:") {
+            rep.count("side_observation_assembler_panic_site", &base.compile[6..]);
+        }
+        if base.exec.starts_with("panic:") {
+            rep.count("side_observation_processor_panic_site", &base.exec[6..]);
+        }
+        for ((imports, locs), rt) in &outs {
+            // two of the four configurations are enough for the (costly) compile comparison
+            if imports != locs {
+                continue;
+            }
+            let b = build(case, rt, execute);
+            rep.count("compile_compared", class_of(&b.compile));
+            if b.compile != base.compile {
+                rep.violation(
+                    format!("{sig_prefix}program-ast/compile-differs/{}-vs-{}", class_of(&base.compile), class_of(&b.compile)),
+                    format!("[imports={},locs={}] original: {} / round-tripped: {}", *imports as u8, *locs as u8, truncate(&base.compile, 200), truncate(&b.compile, 200)),
+                    wit("compile"),
+                );
+            } else if b.exec != base.exec {
+                rep.violation(
+                    format!("{sig_prefix}program-ast/exec-differs"),
+                    format!("[imports={},locs={}] original: {} / round-tripped: {}", *imports as u8, *locs as u8, truncate(&base.exec, 200), truncate(&b.exec, 200)),
+                    wit("exec"),
+                );
+            }
+        }
+    }
+    Some(stats)
+}
+
+/// Library around one module (path `glib::m`), depending on the fixed library.
+pub fn module_library(ast: ModuleAst, with_locs: bool) -> Result<MaslLibrary, String> {
+    MaslLibrary::new(
+        LibraryNamespace::new("glib").map_err(|e| e.to_string())?,
+        Version { major: 1, minor: 2, patch: 3 },
+        with_locs,
+        vec![Module::new(LibraryPath::new("glib::m").map_err(|e| e.to_string())?, ast)],
+        vec![LibraryNamespace::new("vlib").map_err(|e| e.to_string())?],
+    )
+    .map_err(|e| e.to_string())
+}
+
+/// A driver program invoking every exported / re-exported procedure of the module.
+pub fn module_driver(ast: &ModuleAst) -> String {
+    let mut s = String::from("use.glib::m\nbegin\n");
+    for p in ast.procs().iter().filter(|p| p.is_export).take(8) {
+        s.push_str(&format!("    exec.m::{}\n", p.name));
+    }
+    for p in ast.reexported_procs().iter().take(4) {
+        s.push_str(&format!("    exec.m::{}\n", p.name()));
+    }
+    s.push_str("    push.1 drop\nend\n");
+    s
+}
+
+pub fn build_with_module(ast: &ModuleAst, stdlib: bool, stack: &[u64], execute: bool) -> Built {
+    let driver = module_driver(ast);
+    let case = env_case(&driver, stdlib, false, stack.to_vec(), vec![]);
+    let r = catch(|| -> Result<Program, String> {
+        let lib = module_library(ast.clone(), false)?;
+        let asm = case.assembler()?.with_library(&lib).map_err(|e| e.to_string())?;
+        asm.compile(&driver).map_err(|e| e.to_string())
+    });
+    match r {
+        Ok(Ok(p)) => Built {
+            compile: format!("ok:{}|kernel:{}", hex(&p.hash().as_bytes()), hex(&p.kernel().to_bytes())),
+            exec: if execute { exec_class(&case, &p) } else { "skipped".into() },
+        },
+        Ok(Err(e)) => Built { compile: format!("err:{e}"), exec: "-".into() },
+        Err(p) => Built { compile: format!("panic:{}", p.site()), exec: "-".into() },
+    }
+}
+
+pub fn check_module_src(src: &str, stdlib: bool, compile: bool, stack: &[u64], sig_prefix: &str, rep: &mut Report) -> Option<(ModuleAst, AstStats)> {
+    let ast = match catch(|| ModuleAst::parse(src)) {
+        Ok(Ok(a)) => a,
+        Ok(Err(e)) => {
+            rep.count("parse", "module-err");
+            rep.count("parse_err", &truncate(&format!("{e}"), 60));
+            return None;
+        }
+        Err(p) => {
+            rep.count("parse", &format!("module-panic:{}", p.site()));
+            return None;
+        }
+    };
+    rep.count("parse", "module-ok");
+    rep.count("module_shape", &format!("docs={} reexports={} imports={}", ast.docs().is_some() as u8, ast.reexported_procs().len().min(3), ast.import_info().len()));
+    let stats = AstStats::of_module(&ast);
+    stats.flush(rep);
+    let wit = |extra: &str| json!({"kind": "module", "src": src, "stdlib": stdlib, "compile": compile, "stack": stack, "sig_prefix": sig_prefix, "note": extra});
+    let (fails, outs) = roundtrip_module(&ast, rep, &stats.key());
+    let mut seen = HashSet::new();
+    for f in &fails {
+        if (!sig_prefix.is_empty() && !seen.is_empty()) || !seen.insert(f.kind.clone()) {
+            rep.count("secondary_failures_not_reported_separately", &f.kind);
+            continue;
+        }
+        rep.violation(format!("{sig_prefix}module-ast/{}", f.kind), format!("{} :: src: {}", f.detail, truncate(src, 300)), wit(&f.kind));
+    }
+    if compile {
+        let execute = !src.contains("adv.insert_mem");
+        let base = build_with_module(&ast, stdlib, stack, execute);
+        rep.count("compile", &format!("module-{}", class_of(&base.compile)));
+        rep.count("exec", &format!("module-{}", class_of(&base.exec)));
+        for ((imports, locs), rt) in &outs {
+            if imports != locs {
+                continue;
+            }
+            let b = build_with_module(rt, stdlib, stack, execute);
+            if b.compile != base.compile {
+                rep.violation(
+                    format!("{sig_prefix}module-ast/compile-differs/{}-vs-{}", class_of(&base.compile), class_of(&b.compile)),
+                    format!("[imports={},locs={}] original: {} / round-tripped: {}", *imports as u8, *locs as u8, truncate(&base.compile, 200), truncate(&b.compile, 200)),
+                    wit("compile"),
+                );
+            } else if b.exec != base.exec {
+                rep.violation(
+                    format!("{sig_prefix}module-ast/exec-differs"),
+                    format!("[imports={},locs={}] original: {} / round-tripped: {}", *imports as u8, *locs as u8, truncate(&base.exec, 200), truncate(&b.exec, 200)),
+                    wit("exec"),
+                );
+            }
+        }
+    }
+    Some((ast, stats))
+}
+
+// UNIT PHASE: EVERY TEMPLATE x EVERY BOUNDARY IMMEDIATE, EVERY CONTAINER FEATURE, ONE AT A TIME
+// ================================================================================================
+
+const UNIT_HEAD: &str = "use.vlib::alpha\nuse.vlib::beta::gamma\n";
+
+fn unit_program(instr: &str) -> String {
+    format!("{UNIT_HEAD}{CONST_DECLS}proc.lp0\n    push.0 drop\nend\nproc.lp1.4\n    {instr}\nend\nbegin\n    exec.lp1\nend\n")
+}
+
+/// (feature name, is_module, source)
+fn feature_units() -> Vec<(&'static str, bool, String)> {
+    vec![
+        ("import-alias", false, "use.vlib::alpha->al\nbegin\n    exec.al::a0\nend\n".into()),
+        ("import-unused", false, "use.vlib::alpha\nbegin\n    push.1\nend\n".into()),
+        ("import-two-modules", false, "use.vlib::alpha\nuse.vlib::beta::gamma\nbegin\n    exec.alpha::a0 call.gamma::g1 procref.gamma::ra0 dropw\nend\n".into()),
+        ("no-imports-no-procs", false, "begin\n    push.1 drop\nend\n".into()),
+        ("if-without-else", false, "begin\n    push.1 if.true push.2 drop end\nend\n".into()),
+        ("if-else", false, "begin\n    push.0 if.true push.2 drop else push.3 drop end\nend\n".into()),
+        ("nested-flow", false, "begin\n    push.0 if.true repeat.2 push.0 while.true push.0 end end else push.1 if.true swap end end\nend\n".into()),
+        ("repeat-big", false, "begin\n    push.1 if.true swap else repeat.4294967295 swap end end\nend\n".into()),
+        ("repeat-const", false, "const.N=3\nbegin\n    repeat.N swap end\nend\n".into()),
+        ("proc-locals-max", false, "proc.big.65535\n    loc_load.65534 drop\nend\nbegin\n    exec.big\nend\n".into()),
+        ("proc-docs-in-program", false, "#! documented\nproc.d0\n    swap\nend\nbegin\n    exec.d0\nend\n".into()),
+        ("many-procs", false, {
+            let mut s = String::new();
+            for i in 0..40 {
+                s.push_str(&format!("proc.q{i}\n    push.{i} drop\nend\n"));
+            }
+            s.push_str("begin\n    exec.q0 exec.q39 call.q17\nend\n");
+            s
+        }),
+        ("module-plain", true, "export.e0\n    push.1 add\nend\n".into()),
+        ("module-docs", true, "#! module docs\n#! second line\n\nexport.e0\n    push.1 add\nend\n".into()),
+        ("proc-docs", true, "#! proc docs é\n#! line 2\nexport.e0.2\n    loc_load.1 add\nend\n".into()),
+        ("module-internal-proc", true, "proc.i0\n    swap\nend\nexport.e0\n    exec.i0 call.i0\nend\n".into()),
+        ("module-reexport", true, "use.vlib::alpha\nexport.alpha::a0\n\nexport.e0\n    exec.alpha::a1\nend\n".into()),
+        ("module-reexport-alias", true, "use.vlib::alpha\n#! re-export docs\nexport.alpha::a0->renamed\n\nexport.e0\n    push.1\nend\n".into()),
+        ("module-import-alias", true, "use.vlib::beta::gamma->gm\nexport.e0\n    exec.gm::g0\nend\n".into()),
+        ("module-consts", true, "const.A=5\nconst.B=A*A+2\nexport.e0\n    push.B mem_load.A emit.A\nend\n".into()),
+    ]
+}
+
+/// Runs the unit phase; returns what the random phase must avoid.
+pub fn unit_phase(rep: &mut Report) -> Disabled {
+    let mut dis = Disabled::default();
+    let all: Vec<&str> = SIMPLE.iter().chain(TEMPLATES.iter()).copied().collect();
+    let results = par_map(all.len(), |ti| {
+        let tpl = all[ti];
+        let none = Disabled::default();
+        let mut rep = Report::new();
+        let mut bad = false;
+        let mut rng = rng_for(0, "C10-unit", ti as u64);
+        let nb = SrcGen::n_boundary(tpl);
+        for j in 0..nb {
+            let text = {
+                let mut g = SrcGen::new(&mut rng, &none);
+                g.locals = 4;
+                g.has_consts = true;
+                g.local_procs = vec!["lp0".into()];
+                g.imports = vec![
+                    Import { path: "vlib::alpha", alias: "alpha".into(), procs: &ALPHA_PROCS, aliased: false },
+                    Import { path: "vlib::beta::gamma", alias: "gamma".into(), procs: &GAMMA_PROCS, aliased: false },
+                ];
+                match g.instantiate(tpl, Pick::Boundary(j)) {
+                    Some(t) => t,
+                    None => continue,
+                }
+            };
+            let src = unit_program(&text);
+            let case = env_case(&src, false, j % 2 == 1, vec![1, 2, 3, 4, 5, 6, 7, 8], vec![]);
+            // name the unit after the parsed variant so the signature is specific
+            let name = match catch(|| ProgramAst::parse(&src)) {
+                Ok(Ok(a)) => a.procedures().get(1).and_then(|p| p.body.nodes().first().cloned()).map(|n| match n {
+                    Node::Instruction(i) => variant_name(&i),
+                    _ => "flow".into(),
+                }),
+                _ => None,
+            };
+            let name = match name {
+                Some(n) => n,
+                None => {
+                    // a catalog entry the parser rejects is a harness defect, not a finding
+                    rep.inconclusive(format!("catalog-entry-does-not-parse:{text}"));
+                    continue;
+                }
+            };
+            rep.count("unit", "instruction-forms");
+            let counts_before: u64 = rep.violation_counts.values().sum();
+            check_program_src(&case, true, &format!("unit/{name}/"), &mut rep);
+            let counts_after: u64 = rep.violation_counts.values().sum();
+            if counts_after > counts_before {
+                bad = true;
+            }
+        }
+        (rep, bad)
+    });
+    for (ti, (r, bad)) in results.into_iter().enumerate() {
+        rep.merge(r);
+        if bad {
+            dis.templates.insert(all[ti].to_string());
+        }
+    }
+    for (feat, is_module, src) in feature_units() {
+        rep.count("unit", "container-features");
+        let counts_before: u64 = rep.violation_counts.values().sum();
+        let parsed = if is_module {
+            check_module_src(&src, false, true, &[1, 2, 3], &format!("feature/{feat}/"), rep).is_some()
+        } else {
+            let compile = feat != "repeat-big";
+            let case = env_case(&src, false, false, vec![1, 2, 3], vec![]);
+            check_program_src(&case, compile, &format!("feature/{feat}/"), rep).is_some()
+        };
+        if !parsed {
+            rep.inconclusive(format!("feature-unit-does-not-parse:{feat}"));
+        }
+        let counts_after: u64 = rep.violation_counts.values().sum();
+        if counts_after > counts_before {
+            dis.features.insert(feat.to_string());
+        }
+    }
+    rep.note("unit_phase_disabled", json!({"templates": dis.templates.iter().collect::<Vec<_>>(), "features": dis.features.iter().collect::<Vec<_>>()}));
+    dis
+}
+
+// CACHED REAL PROOFS
+// ================================================================================================
+
+pub struct ProofFix {
+    pub name: String,
+    pub info: ProgramInfo,
+    pub inputs: StackInputs,
+    pub outputs: StackOutputs,
+    pub proof: ExecutionProof,
+    /// `ExecutionProof::to_bytes` format
+    pub bytes: Vec<u8>,
+}
+
+/// A few real proofs of tiny programs (one per option set, plus a kernel / deep-stack variant).
+pub fn proofs() -> &'static Vec<ProofFix> {
+    static PROOFS: OnceLock<Vec<ProofFix>> = OnceLock::new();
+    PROOFS.get_or_init(|| {
+        let specs: Vec<(String, Case, usize)> = vec![
+            ("add/96-blake3".into(), Case::new("begin push.1 push.2 add end").with_stack(&[5, 6, 7]), 0),
+            ("add/128-blake3".into(), Case::new("begin push.1 push.2 add end").with_stack(&[5, 6, 7]), 1),
+            ("add/96-rpo".into(), Case::new("begin push.3 mul end").with_stack(&[9]), 2),
+            ("add/128-rpo".into(), Case::new("begin push.3 mul end").with_stack(&[9]), 3),
+            (
+                "kernel-deep/96-blake3".into(),
+                Case {
+                    src: "begin syscall.k0 push.1 push.2 push.3 end".into(),
+                    kernel: Some(KERNEL_SRC.into()),
+                    stack: (1..=20).collect(),
+                    ..Default::default()
+                },
+                0,
+            ),
+        ];
+        let out = par_map(specs.len(), |i| {
+            let (name, case, oi) = &specs[i];
+            let prog = match case.assemble() {
+                crate::case::AsmOutcome::Ok(p) => p,
+                _ => return None,
+            };
+            match pv::prove(case, &prog, pv::options(*oi)) {
+                ProveOutcome::Ok(outputs, proof) => {
+                    let bytes = proof.to_bytes();
+                    Some(ProofFix { name: name.clone(), info: ProgramInfo::from((*prog).clone()), inputs: case.stack_inputs(), outputs, proof, bytes })
+                }
+                _ => None,
+            }
+        });
+        out.into_iter().flatten().collect()
+    })
+}
+
+// DATA ROUND TRIPS
+// ================================================================================================
+
+fn rand_digest(rng: &mut Rng8) -> RpoDigest {
+    RpoDigest::new([Felt::new(biased_felt(rng)), Felt::new(biased_felt(rng)), Felt::new(biased_felt(rng)), Felt::new(biased_felt(rng))])
+}
+
+pub fn rand_kernel(rng: &mut Rng8) -> Kernel {
+    let n = match rng.gen_range(0..10) {
+        0..=2 => 0,
+        3..=7 => rng.gen_range(1..6),
+        8 => 255,
+        _ => rng.gen_range(6..255),
+    };
+    let hashes: Vec<RpoDigest> = (0..n).map(|_| rand_digest(rng)).collect();
+    Kernel::new(&hashes).unwrap_or_default()
+}
+
+pub fn rand_stack_inputs(rng: &mut Rng8) -> StackInputs {
+    let n = match rng.gen_range(0..10) {
+        0 => 0,
+        1..=5 => rng.gen_range(1..17),
+        6..=8 => rng.gen_range(17..60),
+        _ => rng.gen_range(60..2000),
+    };
+    StackInputs::new((0..n).map(|_| Felt::new(biased_felt(rng))).collect())
+}
+
+pub fn rand_stack_outputs(rng: &mut Rng8) -> StackOutputs {
+    let n = match rng.gen_range(0..10) {
+        0 => 0,
+        1..=4 => rng.gen_range(1..17),
+        5..=8 => rng.gen_range(17..60),
+        _ => rng.gen_range(60..3000),
+    };
+    let stack: Vec<u64> = (0..n).map(|_| biased_felt(rng)).collect();
+    let ov: Vec<u64> = if n > 16 { (0..n + 1 - 16).map(|_| biased_felt(rng)).collect() } else { vec![] };
+    StackOutputs::new(stack, ov).expect("valid outputs")
+}
+
+/// decode(encode(x)) for a `Serializable + Deserializable` type; equality through `eq`.
+fn rt_data<T: Serializable + Deserializable>(ty: &str, shape: &str, x: &T, eq: impl Fn(&T, &T) -> bool, rep: &mut Report) {
+    rep.eval(&format!("data|{ty}|{shape}"));
+    rep.count("data_type", ty);
+    let bytes = x.to_bytes();
+    let wit = json!({"kind": "data", "type": ty, "hex": hex(&bytes[..bytes.len().min(1 << 16)])});
+    match catch(|| T::read_from_bytes(&bytes)) {
+        Err(p) => rep.violation(format!("data/{ty}/decode-panic/{}", p.site()), p.message, wit),
+        Ok(Err(e)) => rep.violation(format!("data/{ty}/decode-err"), format!("{e}"), wit),
+        Ok(Ok(y)) => {
+            if !eq(x, &y) {
+                rep.violation(format!("data/{ty}/not-equal"), "decode(encode(x)) != x", wit.clone());
+            }
+            if y.to_bytes() != bytes {
+                rep.violation(format!("data/{ty}/reencode-differs"), "encode(decode(encode(x))) != encode(x)", wit);
+            }
+            // the reader must have consumed everything: one extra byte must not change the value
+            let mut r = SliceReader::new(&bytes);
+            if T::read_from(&mut r).is_ok() && r.has_more_bytes() {
+                rep.violation(format!("data/{ty}/bytes-left-over"), "decoder did not consume the whole encoding", json!({"kind": "data", "type": ty, "hex": hex(&bytes[..bytes.len().min(1 << 16)])}));
+            }
+        }
+    }
+}
+
+pub fn data_roundtrips(rng: &mut Rng8, n: usize, rep: &mut Report) {
+    for _ in 0..n {
+        let k = rand_kernel(rng);
+        rt_data("Kernel", &format!("n{}", k.proc_hashes().len().min(3)), &k, |a, b| a == b, rep);
+        let info = ProgramInfo::new(rand_digest(rng), rand_kernel(rng));
+        rt_data("ProgramInfo", &format!("k{}", info.kernel().proc_hashes().len().min(3)), &info, |a, b| a == b, rep);
+        let si = rand_stack_inputs(rng);
+        rt_data("StackInputs", &format!("deep{}", (si.values().len() > 16) as u8), &si, |a, b| a.values() == b.values(), rep);
+        let so = rand_stack_outputs(rng);
+        rt_data("StackOutputs", &format!("deep{}", so.has_overflow() as u8), &so, |a, b| a == b, rep);
+        let pi = air::PublicInputs::new(info.clone(), si.clone(), so.clone());
+        rt_data("PublicInputs", "any", &pi, |a, b| a.to_bytes() == b.to_bytes(), rep);
+        // small assembler types
+        let comps = ["a", "std", "math", "u64", "x_1", "Z9", "a_long_component_name_0123456789"];
+        let nc = rng.gen_range(1..5);
+        let path: Vec<&str> = (0..nc).map(|_| *comps.choose(rng).unwrap()).collect();
+        if let Ok(p) = LibraryPath::new(path.join("::")) {
+            rt_data("LibraryPath", &format!("c{nc}"), &p, |a, b| a == b, rep);
+            let name = ProcedureName::try_from(comps.choose(rng).unwrap().to_string()).expect("name");
+            rt_data("ProcedureName", "any", &name, |a, b| a == b, rep);
+            let id = ProcedureId::from_name(&name, &p);
+            rt_data("ProcedureId", "any", &id, |a, b| a == b, rep);
+        }
+        if let Ok(ns) = LibraryNamespace::new(*comps.choose(rng).unwrap()) {
+            rt_data("LibraryNamespace", "any", &ns, |a, b| a == b, rep);
+        }
+        let v = Version { major: rng.gen(), minor: rng.gen(), patch: rng.gen() };
+        rt_data("Version", "any", &v, |a, b| a == b, rep);
+    }
+}
+
+pub fn proof_roundtrips(rep: &mut Report) {
+    let fx = proofs();
+    rep.floor(fx.len() >= 4, "at-least-4-real-proofs");
+    for f in fx {
+        rep.eval(&format!("data|ExecutionProof|{}", f.name));
+        rep.count("data_type", "ExecutionProof");
+        let wit = json!({"kind": "proof-fixture", "name": f.name});
+        match catch(|| ExecutionProof::from_bytes(&f.bytes)) {
+            Ok(Ok(p)) => {
+                if p != f.proof {
+                    rep.violation("data/ExecutionProof/from_bytes/not-equal", "from_bytes(to_bytes(p)) != p", wit.clone());
+                }
+                if p.to_bytes() != f.bytes {
+                    rep.violation("data/ExecutionProof/from_bytes/reencode-differs", "bytes differ", wit.clone());
+                }
+            }
+            Ok(Err(e)) => rep.violation("data/ExecutionProof/from_bytes/decode-err", format!("{e}"), wit.clone()),
+            Err(p) => rep.violation(format!("data/ExecutionProof/from_bytes/decode-panic/{}", p.site()), p.message, wit.clone()),
+        }
+        rt_data("ExecutionProof(Serializable)", &f.name, &f.proof, |a, b| a == b, rep);
+        // the round-tripped proof still verifies against the round-tripped statement
+        let r = catch(|| {
+            let info = ProgramInfo::read_from_bytes(&f.info.to_bytes()).map_err(|e| e.to_string())?;
+            let si = StackInputs::read_from_bytes(&f.inputs.to_bytes()).map_err(|e| e.to_string())?;
+            let so = StackOutputs::read_from_bytes(&f.outputs.to_bytes()).map_err(|e| e.to_string())?;
+            let p = ExecutionProof::from_bytes(&f.bytes).map_err(|e| e.to_string())?;
+            miden::verify(info, si, so, p).map_err(|e| format!("{e:?}"))
+        });
+        match r {
+            Ok(Ok(_)) => rep.count("proof_verify_after_roundtrip", "accepted"),
+            Ok(Err(e)) => rep.violation("data/ExecutionProof/statement-roundtrip/verify-rejected", e, wit.clone()),
+            Err(p) => rep.violation(format!("data/ExecutionProof/statement-roundtrip/verify-panic/{}", p.site()), p.message, wit.clone()),
+        }
+    }
+}
+
+// LIBRARY ROUND TRIPS
+// ================================================================================================
+
+pub fn tmp_root() -> PathBuf {
+    if let Ok(p) = std::env::var("VERIF_TMP") {
+        return PathBuf::from(p);
+    }
+    // <target>/release/mvmon -> <target>/tmp
+    std::env::current_exe()
+        .ok()
+        .and_then(|p| p.parent().and_then(|d| d.parent()).map(|d| d.join("tmp")))
+        .unwrap_or_else(|| PathBuf::from("/verif/harness/target-c10/tmp"))
+}
+
+/// In-memory library `glib` from module sources; modules sorted by path (as read_from_dir does).
+fn lib_from_sources(mods: &BTreeMap<String, String>, with_locs: bool) -> Result<MaslLibrary, String> {
+    let mut modules = vec![];
+    let mut deps = BTreeSet::new();
+    for (path, src) in mods {
+        let ast = ModuleAst::parse(src).map_err(|e| e.to_string())?;
+        for p in ast.import_info().import_paths() {
+            let ns = LibraryNamespace::new(p.first()).map_err(|e| e.to_string())?;
+            if ns.as_str() != "glib" {
+                deps.insert(ns);
+            }
+        }
+        modules.push(Module::new(LibraryPath::new(path).map_err(|e| e.to_string())?, ast));
+    }
+    MaslLibrary::new(LibraryNamespace::new("glib").map_err(|e| e.to_string())?, Version { major: 0, minor: 3, patch: 9 }, with_locs, modules, deps.into_iter().collect())
+        .map_err(|e| e.to_string())
+}
+
+fn lib_compile(lib: &MaslLibrary, stdlib: bool, execute: bool) -> String {
+    // driver calling the first export of every module
+    let mut uses = String::new();
+    let mut body = String::new();
+    for (i, m) in lib.modules().enumerate() {
+        if let Some(p) = m.ast.procs().iter().find(|p| p.is_export) {
+            uses.push_str(&format!("use.{}->lm{i}\n", m.path.path()));
+            body.push_str(&format!("    exec.lm{i}::{}\n", p.name));
+        }
+    }
+    let src = format!("{uses}begin\n{body}    push.1 drop\nend\n");
+    let case = env_case(&src, stdlib, false, vec![3, 4, 5], vec![]);
+    match catch(|| -> Result<Program, String> {
+        let asm = case.assembler()?.with_library(lib).map_err(|e| e.to_string())?;
+        asm.compile(&src).map_err(|e| e.to_string())
+    }) {
+        Ok(Ok(p)) => format!("ok:{}|{}", hex(&p.hash().as_bytes()), if execute { exec_class(&case, &p) } else { "skipped".into() }),
+        Ok(Err(e)) => format!("err:{e}"),
+        Err(p) => format!("panic:{}", p.site()),
+    }
+}
+
+pub fn library_roundtrips(rng: &mut Rng8, dis: &Disabled, n: usize, n_fs: usize, shard: usize, rep: &mut Report) {
+    for it in 0..n {
+        let nm = rng.gen_range(1..4);
+        let stdlib = rng.gen_bool(0.15);
+        let mut mods = BTreeMap::new();
+        let paths = ["glib::m0", "glib::sub::m1", "glib::sub::deeper::m2"];
+        for path in paths.iter().take(nm) {
+            // modules that do not parse are regenerated a few times
+            for _ in 0..5 {
+                let size = rng.gen_range(2..12);
+                let (src, no_compile) = gen_module_src(rng, dis, stdlib, size);
+                if !no_compile && ModuleAst::parse(&src).is_ok() {
+                    mods.insert(path.to_string(), src);
+                    break;
+                }
+            }
+        }
+        if mods.is_empty() {
+            continue;
+        }
+        for with_locs in [false, true] {
+            let lib = match catch(|| lib_from_sources(&mods, with_locs)) {
+                Ok(Ok(l)) => l,
+                _ => {
+                    rep.count("library", "build-failed");
+                    continue;
+                }
+            };
+            rep.eval(&format!("library|locs={}|mods={nm}|std={}", with_locs as u8, stdlib as u8));
+            rep.count("data_type", "MaslLibrary");
+            let wit = json!({"kind": "library", "modules": mods, "with_locs": with_locs, "stdlib": stdlib});
+            let bytes = match catch(|| lib.to_bytes()) {
+                Ok(b) => b,
+                Err(p) => {
+                    rep.violation(format!("library/encode-panic/{}", p.site()), p.message, wit);
+                    continue;
+                }
+            };
+            let rt = match catch(|| MaslLibrary::read_from_bytes(&bytes)) {
+                Ok(Ok(l)) => l,
+                Ok(Err(e)) => {
+                    rep.violation(format!("library/locs={}/decode-err", with_locs as u8), format!("{e}"), wit);
+                    continue;
+                }
+                Err(p) => {
+                    rep.violation(format!("library/locs={}/decode-panic/{}", with_locs as u8, p.site()), p.message, wit);
+                    continue;
+                }
+            };
+            let mut expect = lib.clone();
+            if !with_locs {
+                expect.clear_locations();
+            }
+            if rt != expect {
+                rep.violation(format!("library/locs={}/not-equal", with_locs as u8), "read_from(write_into(lib)) != lib", wit.clone());
+            }
+            if rt.to_bytes() != bytes {
+                rep.violation(format!("library/locs={}/reencode-differs", with_locs as u8), "bytes differ", wit.clone());
+            }
+            let execute = !mods.values().any(|m| m.contains("adv.insert_mem"));
+            let (a, b) = (lib_compile(&lib, stdlib, execute), lib_compile(&rt, stdlib, execute));
+            rep.count("library_compile", class_of(&a));
+            if a != b {
+                rep.violation(format!("library/locs={}/compile-differs", with_locs as u8), format!("{} vs {}", truncate(&a, 160), truncate(&b, 160)), wit.clone());
+            }
+            // file system forms
+            if it < n_fs {
+                let dir = tmp_root().join(format!("c10-{}-{shard}-{it}-{}", std::process::id(), with_locs as u8));
+                let _ = std::fs::remove_dir_all(&dir);
+                let r = catch(|| -> Result<(), String> {
+                    // write_to_dir / read_from_file
+                    let out = dir.join("out");
+                    lib.write_to_dir(&out).map_err(|e| format!("write_to_dir: {e}"))?;
+                    let f = MaslLibrary::read_from_file(out.join("glib.masl")).map_err(|e| format!("read_from_file: {e}"))?;
+                    if f != expect {
+                        return Err("read_from_file(write_to_dir(lib)) != lib".into());
+                    }
+                    // source tree / read_from_dir
+                    let srcdir = dir.join("src");
+                    for (path, src) in &mods {
+                        let rel: Vec<&str> = path.split("::").skip(1).collect();
+                        let mut p = srcdir.clone();
+                        for c in &rel[..rel.len() - 1] {
+                            p = p.join(c);
+                        }
+                        std::fs::create_dir_all(&p).map_err(|e| e.to_string())?;
+                        std::fs::write(p.join(format!("{}.masm", rel[rel.len() - 1])), src).map_err(|e| e.to_string())?;
+                    }
+                    let d = MaslLibrary::read_from_dir(&srcdir, LibraryNamespace::new("glib").unwrap(), with_locs, Version { major: 0, minor: 3, patch: 9 })
+                        .map_err(|e| format!("read_from_dir: {e}"))?;
+                    if d != lib {
+                        return Err("read_from_dir(sources) != library built from the same sources".into());
+                    }
+                    Ok(())
+                });
+                rep.count("library", "fs-roundtrip");
+                match r {
+                    Ok(Ok(())) => {}
+                    Ok(Err(e)) => rep.violation(format!("library/locs={}/fs/{}", with_locs as u8, e.split(':').next().unwrap_or("")), e, wit.clone()),
+                    Err(p) => rep.violation(format!("library/locs={}/fs/panic/{}", with_locs as u8, p.site()), p.message, wit.clone()),
+                }
+                let _ = std::fs::remove_dir_all(&dir);
+            }
+        }
+    }
+}
+
+// RUN
+// ================================================================================================
+
+fn rand_inputs(rng: &mut Rng8) -> (Vec<u64>, Vec<u64>) {
+    let n = rng.gen_range(0..20);
+    let stack = (0..n).map(|_| biased_felt(rng)).collect();
+    let advice = (0..rng.gen_range(0..24)).map(|_| biased_felt(rng)).collect();
+    (stack, advice)
+}
+
+pub fn run(cfg: &Cfg) -> Report {
+    let mut rep0 = Report::new();
+    // probe the deserialiser for its opcode table
+    let ops = valid_opcodes().clone();
+    let adv_sub = valid_subcodes(206);
+    let dbg_sub = valid_subcodes(226);
+    rep0.note("serde_opcodes_accepted_by_deserialiser", json!({"count": ops.len(), "adv_inject_subcodes": adv_sub.len(), "debug_subcodes": dbg_sub.len()}));
+    rep0.floor(ops.len() >= 200, "opcode-probe-found-the-table");
+    let dis = unit_phase(&mut rep0);
+    proof_roundtrips(&mut rep0);
+
+    let shards = 64;
+    let per_prog = cfg.n(220, 2600);
+    let per_mod = cfg.n(110, 1300);
+    let per_case = cfg.n(40, 500);
+    let per_lib = cfg.n(6, 60);
+    let per_data = cfg.n(150, 1500);
+    let reports = par_map(shards, |sh| {
+        let mut rng = rng_for(cfg.seed, "C10", sh as u64);
+        let mut rep = Report::new();
+        for i in 0..per_prog {
+            let stdlib = rng.gen_bool(0.12);
+            let size = [3usize, 8, 20, 60][rng.gen_range(0..4)];
+            let (src, no_compile) = gen_program_src(&mut rng, &dis, stdlib, size);
+            let (stack, advice) = rand_inputs(&mut rng);
+            let case = env_case(&src, stdlib, rng.gen_bool(0.3), stack, advice);
+            // compile every other source (parsing and serde are ~10x cheaper than compile + execute)
+            let compile = !no_compile && i % 2 == 0;
+            if check_program_src(&case, compile, "", &mut rep).is_some() && rep.samples.len() < 2 && sh == 0 {
+                rep.sample(json!({"kind": "program", "src": truncate(&src, 400)}));
+            }
+        }
+        for i in 0..per_mod {
+            let stdlib = rng.gen_bool(0.12);
+            let size = [3usize, 8, 25][rng.gen_range(0..3)];
+            let (src, no_compile) = gen_module_src(&mut rng, &dis, stdlib, size);
+            let (stack, _) = rand_inputs(&mut rng);
+            let compile = !no_compile && i % 2 == 0;
+            if check_module_src(&src, stdlib, compile, &stack, "", &mut rep).is_some() && rep.samples.len() < 4 && sh == 0 {
+                rep.sample(json!({"kind": "module", "src": truncate(&src, 400)}));
+            }
+        }
+        // executable gadget programs (these run to completion, so outputs are compared for real)
+        for _ in 0..per_case {
+            let size = rng.gen_range(2..25);
+            let gc = GenCfg::random(&mut rng, size);
+            let case = gen_case(&mut rng, &gc);
+            rep.count("workload", "gadget-program");
+            check_program_src(&case, true, "", &mut rep);
+            if let Some(k) = &case.kernel {
+                check_module_src(k, false, false, &[], "kernel-module/", &mut rep);
+            }
+        }
+        library_roundtrips(&mut rng, &dis, per_lib, 2, sh, &mut rep);
+        data_roundtrips(&mut rng, per_data, &mut rep);
+        rep
+    });
+    let mut rep = merge_all(reports);
+    rep.merge(rep0);
+
+    // floors: every opcode the deserialiser knows was encoded at least once
+    let seen: BTreeSet<u8> = rep.hist.get("serde_opcode").map(|h| h.keys().filter_map(|k| k[..3].parse::<u8>().ok()).collect()).unwrap_or_default();
+    let missing: Vec<u8> = ops.iter().copied().filter(|b| !seen.contains(b)).collect();
+    rep.note("serde_opcodes_encoded", json!({"encoded": seen.len(), "known_to_deserialiser": ops.len(), "missing": missing}));
+    rep.floor(missing.is_empty(), &format!("every-serde-opcode-encoded(missing:{:?})", missing));
+    let imm = rep.hist.get("imm_form").cloned().unwrap_or_default();
+    for (prefix, subs, name) in [("AdvInject:sub", &adv_sub, "adv-inject"), ("Debug:sub", &dbg_sub, "debug")] {
+        let miss: Vec<u8> = subs.iter().copied().filter(|s| !imm.keys().any(|k| k.starts_with(&format!("{prefix}{s}:")))).collect();
+        rep.floor(miss.is_empty(), &format!("every-{name}-subcode-encoded(missing:{:?})", miss));
+    }
+    rep.floor(rep.get_count("ast_config", "program|imports=0,locs=0") > 100 && rep.get_count("ast_config", "module|imports=1,locs=1") > 100, "all-configs-exercised");
+    rep.floor(rep.get_count("compile", "ok") >= 200, "200-programs-compiled");
+    rep.floor(rep.get_count("exec", "ok") >= 100, "100-programs-executed-to-completion");
+    rep.floor(rep.get_count("compile", "module-ok") >= 50, "50-modules-compiled");
+    rep.floor(rep.get_count("library_compile", "ok") >= 10, "10-libraries-compiled");
+    rep.floor(rep.get_count("library", "fs-roundtrip") >= 8, "library-file-roundtrips");
+    for t in ["Kernel", "ProgramInfo", "StackInputs", "StackOutputs", "PublicInputs", "MaslLibrary", "ExecutionProof", "LibraryPath", "ProcedureName", "ProcedureId"] {
+        rep.floor(rep.get_count("data_type", t) >= 4, &format!("data-type-{t}"));
+    }
     rep
 }
 
-pub fn replay(_v: &serde_json::Value, _rep: &mut Report) {}
+pub fn replay(v: &Value, rep: &mut Report) {
+    let prefix = v.get("sig_prefix").and_then(|s| s.as_str()).unwrap_or("").to_string();
+    match v.get("kind").and_then(|k| k.as_str()).unwrap_or("") {
+        "program" | "case" => {
+            if let Some(case) = v.get("case").and_then(Case::from_json) {
+                let compile = v.get("compile").and_then(|b| b.as_bool()).unwrap_or(true);
+                check_program_src(&case, compile, &prefix, rep);
+            }
+        }
+        "module" => {
+            let src = v.get("src").and_then(|s| s.as_str()).unwrap_or("");
+            let stack: Vec<u64> = v.get("stack").and_then(|s| s.as_array()).map(|a| a.iter().filter_map(|x| x.as_u64()).collect()).unwrap_or_default();
+            check_module_src(src, v.get("stdlib").and_then(|b| b.as_bool()).unwrap_or(false), v.get("compile").and_then(|b| b.as_bool()).unwrap_or(true), &stack, &prefix, rep);
+        }
+        "proof-fixture" => proof_roundtrips(rep),
+        "library" => {
+            // re-run on the recorded module sources
+            let mods: BTreeMap<String, String> = v
+                .get("modules")
+                .and_then(|m| m.as_object())
+                .map(|m| m.iter().filter_map(|(k, s)| s.as_str().map(|s| (k.clone(), s.to_string()))).collect())
+                .unwrap_or_default();
+            let with_locs = v.get("with_locs").and_then(|b| b.as_bool()).unwrap_or(false);
+            if let Ok(lib) = lib_from_sources(&mods, with_locs) {
+                rep.eval("library|replay");
+                match catch(|| MaslLibrary::read_from_bytes(&lib.to_bytes())) {
+                    Ok(Ok(rt)) => {
+                        let mut expect = lib.clone();
+                        if !with_locs {
+                            expect.clear_locations();
+                        }
+                        if rt != expect {
+                            rep.violation(format!("library/locs={}/not-equal", with_locs as u8), "read_from(write_into(lib)) != lib", v.clone());
+                        }
+                    }
+                    Ok(Err(e)) => rep.violation(format!("library/locs={}/decode-err", with_locs as u8), format!("{e}"), v.clone()),
+                    Err(p) => rep.violation(format!("library/locs={}/decode-panic/{}", with_locs as u8, p.site()), p.message, v.clone()),
+                }
+            }
+        }
+        "data" => {
+            let bytes = unhex(v.get("hex").and_then(|s| s.as_str()).unwrap_or(""));
+            let ty = v.get("type").and_then(|s| s.as_str()).unwrap_or("");
+            fn again<T: Serializable + Deserializable>(ty: &str, bytes: &[u8], rep: &mut Report) {
+                if let Ok(Ok(x)) = catch(|| T::read_from_bytes(bytes)) {
+                    rt_data(ty, "replay", &x, |a: &T, b: &T| a.to_bytes() == b.to_bytes(), rep);
+                }
+            }
+            match ty {
+                "Kernel" => again::<Kernel>(ty, &bytes, rep),
+                "ProgramInfo" => again::<ProgramInfo>(ty, &bytes, rep),
+                "StackInputs" => again::<StackInputs>(ty, &bytes, rep),
+                "StackOutputs" => again::<StackOutputs>(ty, &bytes, rep),
+                "PublicInputs" => again::<air::PublicInputs>(ty, &bytes, rep),
+                "LibraryPath" => again::<LibraryPath>(ty, &bytes, rep),
+                "ProcedureName" => again::<ProcedureName>(ty, &bytes, rep),
+                "ProcedureId" => again::<ProcedureId>(ty, &bytes, rep),
+                "LibraryNamespace" => again::<LibraryNamespace>(ty, &bytes, rep),
+                "Version" => again::<Version>(ty, &bytes, rep),
+                _ => {}
+            }
+        }
+        _ => {}
+    }
+}
+
+#[allow(dead_code)]
+fn _unused(_: PanicInfo) {}
